@@ -3,15 +3,15 @@
  "property": "C12",
  "standin": "B-gsu",
  "bound": "displays with <= 3 elements x 4 layouts x 4 kinds x delete subsets x 5 insert patterns (1500 sampled cases quick / all thorough) through the real apply_all + new_code",
- "input": "('call', 'comment', ('1', '0+2', '\"\"\"a\\nb\"\"\"'), (0, 2), {3: ['8', '9']})",
- "detail": "result does not parse (unmatched ')'): \"x = '\u00e4\u00f6'; v = 0+2, 8, 9)  # tail\\ny = 2\\n\""
+ "input": "('tuple', 'trailing', ('((7) )', '[3,\\n  4]', 'f(5)'), (2,), {1: ['\"\"\"x\\ny\"\"\"']})",
+ "detail": "result does not parse ('(' was never closed): 'x = \\'\u00e4\u00f6\\'; v = (((7), \"\"\"x\\ny\"\"\", , [3,\\n  4])  # tail\\ny = 2\\n'"
 }
 """
 
 import sys, tempfile
 sys.path.insert(0, "/verif")
 from bounded.b_gsu import one_case
-msg = one_case(tempfile.mkdtemp(), *('call', 'comment', ('1', '0+2', '"""a\nb"""'), (0, 2), {3: ['8', '9']}))
-print(('call', 'comment', ('1', '0+2', '"""a\nb"""'), (0, 2), {3: ['8', '9']}), "->", msg)
+msg = one_case(tempfile.mkdtemp(), *('tuple', 'trailing', ('((7) )', '[3,\n  4]', 'f(5)'), (2,), {1: ['"""x\ny"""']}))
+print(('tuple', 'trailing', ('((7) )', '[3,\n  4]', 'f(5)'), (2,), {1: ['"""x\ny"""']}), "->", msg)
 assert msg is None, msg
 
